@@ -80,6 +80,8 @@ func genPipeline(r *rand.Rand, mapSize int) string {
 		sb.WriteString("      {}\n")
 	}
 	sb.WriteString("    plugins:\n      - " + yamlStr("docker#"+frag(r)) + ":\n          image: " + yamlStr(frag(r)) + "\n" + genMap(r, 2, 1, "          ", &uniq))
+	// plugins without a config: scalar form and explicit null
+	sb.WriteString("      - " + yamlStr("cache#"+frag(r)) + "\n      - " + yamlStr("org/tool#"+frag(r)) + ": ~\n")
 	sb.WriteString("    matrix:\n      setup:\n        os: [" + yamlStr(frag(r)) + ", linux]\n      adjustments:\n        - with: {os: " + yamlStr(frag(r)) + "}\n          soft_fail: " + yamlStr(frag(r)) + "\n")
 	sb.WriteString("    signature:\n      algorithm: " + yamlStr("alg-$X") + "\n      signed_fields: [" + yamlStr("command-$X") + "]\n      value: " + yamlStr("$X$$X") + "\n")
 	sb.WriteString("    unknown_field:\n" + genMap(r, mapSize, 1, "      ", &uniq))
